@@ -13,8 +13,25 @@ Simplex meshing goes through gmsh (external process) and is out of scope.  Cover
     domain and target size (the uniform grid whose cell size is closest to the target); the fractures are placed on these
     lines, so no snapping is involved and the expected geometry is a function of the given domain and fractures only.
 
+  * tensor grids with user-supplied node lines: ``pp.meshing.tensor_grid(fracs, x, y(, z))`` and ``pp.create_mdg("tensor_grid",
+    {"x_pts": .., "y_pts": .. (, "z_pts": ..)} | {"cell_size": h, "<axis>_pts": ..}, network)`` with non-uniform lines that differ
+    between the axes (in number, in extent, or in grading only), lower corner at / not at the origin; the expected grid lines
+    are the given ones (uniform lines from the target size on the axes without given lines) and the fractures lie on them;
+  * fractures lying in the domain boundary (2-D, ``pp.meshing.cart_grid`` and ``pp.meshing.tensor_grid``): alone, with interior
+    fractures ending on / crossing next to them, end to end, meeting in a domain corner.  Such a fracture has the host on one
+    side only: each cell is coupled to exactly one host face, which must be tagged ``fracture_faces``; an interior fracture
+    ending on it couples to the intersection point through an end face lying in the domain boundary (same clauses, the
+    box model decides the side count: two sides exactly for cells in the relative interior of the higher-dimensional object).
+    Not part of this family (behaviour of the unchanged library, observed when the family was added): ``pp.create_mdg`` removes
+    a fracture lying in the domain boundary from the network (``impose_external_boundary`` in ``_validate_args``, with the
+    warning "Found n fractures outside the domain boundary"), and in 3-D ``cart_grid`` / ``tensor_grid`` raise (AssertionError in
+    ``intersections.vector_pointset_point`` resp. ValueError "There should be at most two intersections", both from
+    ``structured._create_lower_dim_grids_3d`` -> ``FractureNetwork3d.impose_external_boundary``) for a rectangle lying in a
+    boundary plane, e.g. cart_grid([x = 0 plane, y, z in [0, 2]], nx = (2, 2, 2)).
+
 The host clause ("host volume equals the domain volume") is evaluated as: the host nodes lie in the given domain box and
-the sum of the host cell volumes equals the domain volume (for cart_grid also: prod(nx) cells).  When it fails the
+the sum of the host cell volumes equals the domain volume (for cart_grid, and where node lines are given on every axis, also:
+prod(nx) cells).  When it fails the
 remaining clauses, which are formulated on the grid lines of the given domain, are not evaluated for that case.
 
 KNOWN DEFECT OF THE UNCHANGED LIBRARY kept in the sweep (not loosened): ``create_mdg("cartesian", ...)`` on a domain whose
@@ -56,9 +73,18 @@ Detection power (scratch copy of /repo/src, POREPY_SRC=<copy>, quick tier; every
        cart_grid / create_mdg raising) on the decimal cell-size families of cart_grid and create_mdg("cartesian") in 3-D
   M8 mdg_generation._preprocess_tensor_grid_args: ``np.linspace(xmin, xmax, n)`` -> ``xmin + cell_size * np.arange(n)``
        caught by "host: volume equals the domain volume" on create_mdg("tensor_grid") with non-dividing cell sizes (2-D, 3-D)
+  M9 mdg_generation._preprocess_tensor_grid_args: ``meshing_args.get("y_pts", y_pts)`` -> ``get("x_pts", y_pts)``
+       caught by "host: volume equals the domain volume" (lines differing in extent / number) and "lower-dimensional cells: centres
+       lie on grid lines/planes", "fractures: cells lie on their fracture and tile it exactly" (lines differing in grading only)
+       on the given-node-lines family of create_mdg("tensor_grid")
+  M10 split_grid._duplicate_specific_faces: unsplit coupled faces tagged ``fracture_faces`` only if they were tip faces
+       caught by "tags: fracture_faces marks exactly the coupled faces" on the fractures-in-the-domain-boundary family
+       (cart_grid and tensor_grid, 2-D; host faces of the boundary fracture and the end face of a fracture ending on it)
 
 Observation (not a violation): for non-dyadic cell sizes in 3-D the embedded 2-d fracture grids carry coordinate errors up
 to 5e-11 because structured._create_embedded_2d_grid rounds local coordinates to 1e-10; those cases use tolerance 1e-9.
+The same holds for non-uniform node lines in 3-D, dyadic ones included (the fracture nodes are centred at their mean before
+the rounding; x_pts = y_pts = (0, 0.5, 1), z_pts = (0, 0.25, 0.5, 1): centres off by 3.3e-11), so that family uses 1e-9 too.
 """
 from __future__ import annotations
 
@@ -76,15 +102,22 @@ META = {
             "'cartesian' and 'tensor_grid' on pp.Domain + pp.create_fracture_network networks (sampled sets of <= 2 fractures plus fixed "
             "X / T / L sets) with target cell sizes dividing and not dividing the side lengths, per-axis cell sizes (cartesian), "
             "decimal cell sizes in 3-D, and domains whose lower corner is not the origin (on which create_mdg('cartesian') of the "
-            "unchanged library violates the host-volume clause: kept as a finding). Not covered (not applicable here): simplex meshes "
-            "(gmsh is an external process), fractures not aligned with grid lines (snapping), fractures lying in the domain boundary, "
-            "overlapping coplanar fractures (rejected by porepy), more than 3 fractures, user-supplied x_pts/y_pts/z_pts of tensor grids, "
+            "unchanged library violates the host-volume clause: kept as a finding). Added families: tensor grids with user-supplied, "
+            "non-uniform node lines that differ between the axes (pp.meshing.tensor_grid(fracs, x, y, z) and pp.create_mdg('tensor_grid', "
+            "{'x_pts', 'y_pts', 'z_pts'} or {'cell_size' + one '<axis>_pts'}), 2-D and 3-D, fractures on the given lines); fractures "
+            "lying in the domain boundary in 2-D (pp.meshing.cart_grid / tensor_grid; one coupled, tagged host face per cell; interior "
+            "fractures ending on them, end-to-end and domain-corner contacts). Not covered (not applicable here): simplex meshes "
+            "(gmsh is an external process), fractures not aligned with grid lines (snapping), fractures lying in the domain boundary "
+            "through pp.create_mdg (removed from the network with a warning) and in 3-D (cart_grid / tensor_grid raise), "
+            "overlapping coplanar fractures (rejected by porepy), more than 3 fractures, "
             "target sizes for which L / h is a tie k + 1/2. Exploration level, no claim beyond the enumerated family.",
-    "note": "requires: fracture vertices on grid nodes, fractures on interior grid lines/planes, two fractures never share a cell "
+    "note": "requires: fracture vertices on grid nodes, fractures on interior grid lines/planes (2-D through pp.meshing.cart_grid / "
+            "tensor_grid: also on the boundary lines of the domain), two fractures never share a cell "
             "(no coplanar overlap), three fractures never share a line segment; create_mdg: the structured grid has round(L / h) cells per "
-            "direction (uniform grid closest to the target size) and the fractures lie on its lines; tolerance 1e-12 relative to the domain "
+            "direction (uniform grid closest to the target size), resp. the given node lines (strictly increasing, first and last on the "
+            "domain boundary), and the fractures lie on its lines; tolerance 1e-12 relative to the domain "
             "size for centres/measures, except 1e-9 (not below 1e-10 absolute) for non-dyadic "
-            "cell sizes in 3-D where structured._create_embedded_2d_grid rounds local coordinates to 1e-10; the integer box "
+            "cell sizes and for non-uniform node lines in 3-D where structured._create_embedded_2d_grid rounds local coordinates to 1e-10; the integer box "
             "model of the fracture network is the trusted oracle",
 }
 
@@ -204,9 +237,57 @@ def all_fracs_3d(nx):
     return out
 
 
+def boundary_fracs_2d(nx):
+    """Line fractures lying in one of the four boundary lines of the domain."""
+    out = []
+    for c in (0, nx[1]):
+        for lo, hi in itertools.combinations(range(nx[0] + 1), 2):
+            out.append(("h", c, lo, hi))
+    for c in (0, nx[0]):
+        for lo, hi in itertools.combinations(range(nx[1] + 1), 2):
+            out.append(("v", c, lo, hi))
+    return out
+
+
+def boundary_fracs_3d(nx):
+    """Rectangle fractures lying in one of the six boundary planes of the domain."""
+    out = []
+    for a in range(3):
+        others = [ax for ax in range(3) if ax != a]
+        for c in (0, nx[a]):
+            for r1 in itertools.combinations(range(nx[others[0]] + 1), 2):
+                for r2 in itertools.combinations(range(nx[others[1]] + 1), 2):
+                    out.append((a, c, r1, r2))
+    return out
+
+
+def in_boundary(nd, nx, f):
+    """The fracture lies in the boundary of the index box [0, nx]."""
+    b = frac_box_2d(f) if nd == 2 else frac_box_3d(f)
+    return any(lo == hi and lo in (0, nx[ax]) for ax, (lo, hi) in enumerate(b))
+
+
 def frac_of(x):
     """Exact rational meant by a decimal input number (0.1 -> 1/10)."""
     return Fraction(x).limit_denominator(10**6)
+
+
+def grid_lines(nd, nx, phys, origin, pts):
+    """Exact (rational) node lines of the expected grid, one list per axis: the user-supplied node lines ``pts[i]`` where
+    given (tensor grids), else the uniform lines  origin_i + k * L_i / n_i.  None when given node lines are not strictly
+    increasing, do not have nx[i] + 1 entries or do not start / end on the domain boundary (outside the contract)."""
+    lines = []
+    for i in range(nd):
+        o = frac_of(origin[i]) if origin is not None else Fraction(0)
+        if pts is not None and pts[i] is not None:
+            l = [frac_of(v) for v in pts[i]]
+            if len(l) != nx[i] + 1 or any(b <= a for a, b in zip(l, l[1:])) or l[0] != o or l[-1] != o + frac_of(phys[i]):
+                return None
+        else:
+            step = frac_of(phys[i]) / nx[i]
+            l = [o + k * step for k in range(nx[i] + 1)]
+        lines.append(l)
+    return lines
 
 
 def cells_for(L, cell_size):
@@ -218,12 +299,10 @@ def cells_for(L, cell_size):
     return max(1, int(q + Fraction(1, 2)))
 
 
-def to_arrays(fracs, nx, phys, nd, np, reverse=False, origin=None):
+def to_arrays(fracs, lines, nd, np, reverse=False):
     """Physical vertex arrays of the fractures: vertex with grid index k on axis i is the float nearest to the exact
-    rational  origin_i + k * L_i / n_i  (so the input really is the grid line of the expected uniform grid)."""
-    h = [frac_of(phys[i]) / nx[i] for i in range(nd)]
-    org = [frac_of(origin[i]) if origin is not None else Fraction(0) for i in range(nd)]
-    hf = [float(x) for x in h]
+    rational node line ``lines[i][k]`` (uniform grids: origin_i + k * L_i / n_i), so the input really is a grid line of
+    the expected grid."""
     arrs = []
     for f in fracs:
         if nd == 2:
@@ -241,33 +320,47 @@ def to_arrays(fracs, nx, phys, nd, np, reverse=False, origin=None):
                 pts.append(tuple(p))
         if reverse:
             pts = pts[::-1]
-        arrs.append(np.array([[float(org[ax] + p[ax] * h[ax]) for p in pts] for ax in range(nd)], dtype=float))
-    return arrs, hf
+        arrs.append(np.array([[float(lines[ax][p[ax]]) for p in pts] for ax in range(nd)], dtype=float))
+    return arrs
 
 
 # ----------------------------------------------------------------------------- the contract
 
 
-def check_case(pp, np, nd, nx, phys, fracs, reverse=False, tol_rel=1e-12, entry="cart_grid", origin=None, cell_size=None):
+def check_case(pp, np, nd, nx, phys, fracs, reverse=False, tol_rel=1e-12, entry="cart_grid", origin=None, cell_size=None, pts=None):
     """Mesh the case with the real code and evaluate the postconditions.
 
     entry "cart_grid": ``pp.meshing.cart_grid(fracs, nx, physdims=phys)`` on the box [0, phys].
+    entry "tensor_grid": ``pp.meshing.tensor_grid(fracs, x, y(, z))`` with the node lines ``pts`` (one tuple per axis).
     entry "create_mdg:cartesian" / "create_mdg:tensor_grid": ``pp.create_mdg(grid_type, meshing_args, network)`` with
     ``network = pp.create_fracture_network(fractures, pp.Domain(box))``, box = [origin, origin + phys], meshing_args =
-    {"cell_size": h} (or cell_size_x/_y/_z when ``cell_size`` is a tuple; cartesian only).  ``nx`` must be the cell
-    counts of the uniform grid closest to the target size (``cells_for``), else the case is skipped; the fractures are
-    given in index coordinates of that grid, i.e. they lie on the lines origin + k * phys / nx of the given domain.
+    {"cell_size": h} (or cell_size_x/_y/_z when ``cell_size`` is a tuple; cartesian only); for tensor_grid in addition
+    {"x_pts" / "y_pts" / "z_pts": pts[i]} on the axes where ``pts[i]`` is not None (``cell_size`` may then be None when all
+    axes have node lines).  On the axes without given node lines ``nx`` must be the cell counts of the uniform grid closest
+    to the target size (``cells_for``), on the axes with node lines len(pts[i]) - 1, else the case is skipped; the
+    fractures are given in index coordinates of that grid, i.e. they lie on the lines origin + k * phys / nx of the given
+    domain, resp. on the given node lines.
 
     Returns (status, failures, info): status in {'ok', 'skip'}; failures = list of (obligation, detail)."""
     boxes = [frac_box_2d(f) if nd == 2 else frac_box_3d(f) for f in fracs]
     model = network_model(boxes, nd)
     if model is None:
         return "skip", [], {}
-    if entry != "cart_grid":
-        sizes = list(cell_size) if isinstance(cell_size, (tuple, list)) else [cell_size] * nd
-        if len(sizes) != nd or any(cells_for(phys[i], sizes[i]) != nx[i] for i in range(nd)):
+    given = [pts is not None and pts[i] is not None for i in range(nd)]
+    if entry == "tensor_grid" and not all(given):
+        return "skip", [], {}
+    if any(given) and entry not in ("tensor_grid", "create_mdg:tensor_grid"):
+        return "skip", [], {}
+    if entry.startswith("create_mdg"):
+        if cell_size is None and not all(given):
             return "skip", [], {}
-    arrs, h = to_arrays(fracs, nx, phys, nd, np, reverse, origin)
+        sizes = list(cell_size) if isinstance(cell_size, (tuple, list)) else [cell_size] * nd
+        if len(sizes) != nd or any(not given[i] and cells_for(phys[i], sizes[i]) != nx[i] for i in range(nd)):
+            return "skip", [], {}
+    lines = grid_lines(nd, nx, phys, origin, pts)
+    if lines is None:
+        return "skip", [], {}
+    arrs = to_arrays(fracs, lines, nd, np, reverse)
     lo_x = [frac_of(origin[i]) if origin is not None else Fraction(0) for i in range(nd)]
     lo_f = [float(x) for x in lo_x]
     hi_f = [float(lo_x[i] + frac_of(phys[i])) for i in range(nd)]
@@ -276,10 +369,12 @@ def check_case(pp, np, nd, nx, phys, fracs, reverse=False, tol_rel=1e-12, entry=
     def bad(ob, detail):
         fails.append((ob, detail))
 
-    fn = "cart_grid" if entry == "cart_grid" else "create_mdg"
+    fn = entry if entry in ("cart_grid", "tensor_grid") else "create_mdg"
     try:
         if entry == "cart_grid":
             mdg = pp.meshing.cart_grid(arrs, np.array(nx), physdims=np.array(phys, dtype=float))
+        elif entry == "tensor_grid":
+            mdg = pp.meshing.tensor_grid(arrs, *[np.array([float(v) for v in pts[i]], dtype=float) for i in range(nd)])
         else:
             grid_type = entry.split(":")[1]
             keys = "xyz"
@@ -291,8 +386,13 @@ def check_case(pp, np, nd, nx, phys, fracs, reverse=False, tol_rel=1e-12, entry=
             network = pp.create_fracture_network(fr, domain)
             if isinstance(cell_size, (tuple, list)):
                 margs = {"cell_size_" + keys[i]: float(cell_size[i]) for i in range(nd)}
-            else:
+            elif cell_size is not None:
                 margs = {"cell_size": float(cell_size)}
+            else:
+                margs = {}
+            for i in range(nd):
+                if given[i]:
+                    margs[keys[i] + "_pts"] = np.array([float(v) for v in pts[i]], dtype=float)
             mdg = pp.create_mdg(grid_type, margs, network)
     except Exception as e:  # noqa: BLE001
         return "ok", [(f"{fn}: returns a mixed-dimensional grid for an admissible network", f"{type(e).__name__}: {str(e)[:200]}")], {}
@@ -300,23 +400,30 @@ def check_case(pp, np, nd, nx, phys, fracs, reverse=False, tol_rel=1e-12, entry=
     tol = tol_rel * scale
     if nd == 3 and tol_rel > 1e-12:
         tol = max(tol, 1e-10)  # structured._create_embedded_2d_grid rounds to 1e-10 absolute, whatever the domain size
-    hv = np.array(h + [1.0] * (3 - nd))
-    ov = np.array(lo_f + [0.0] * (3 - nd))
+    # positions with "twice-index" 2k (node line k) and 2k + 1 (midpoint of the lines k, k + 1) per axis
+    cand = [np.array([float(l[k // 2]) if k % 2 == 0 else float((l[k // 2] + l[k // 2 + 1]) / 2) for k in range(2 * len(l) - 1)])
+            for l in lines]
+    width = [[float(b - a) for a, b in zip(l, l[1:])] for l in lines]
 
     def c2_of(x):
-        """Twice the index coordinates of a physical point (rounded), and the rounding error in physical units."""
-        idx2 = 2.0 * (np.asarray(x)[:nd] - ov[:nd]) / hv[:nd]
-        r = np.rint(idx2)
-        err = float(np.max(np.abs((idx2 - r) * hv[:nd] / 2.0))) if nd else 0.0
+        """Twice the index coordinates of a physical point (nearest node line / cell midpoint per axis), and the distance to
+        that position in physical units."""
+        x = np.asarray(x)
+        idx, err = [], 0.0
+        for ax in range(nd):
+            d = np.abs(cand[ax] - float(x[ax]))
+            k = int(np.argmin(d))
+            idx.append(k)
+            err = max(err, float(d[k]))
         if nd == 2:
-            err = max(err, abs(float(np.asarray(x)[2])))
-        return tuple(int(v) for v in r), err
+            err = max(err, abs(float(x[2])))
+        return tuple(idx), err
 
     def measure_of(c2):
         m = 1.0
         for ax, v in enumerate(c2):
             if v % 2 == 1:
-                m *= h[ax]
+                m *= width[ax][v // 2]
         return m
 
     subs = mdg.subdomains()
@@ -335,7 +442,8 @@ def check_case(pp, np, nd, nx, phys, fracs, reverse=False, tol_rel=1e-12, entry=
     inside = all(ext_lo[i] >= lo_f[i] - 1e-9 * scale and ext_hi[i] <= hi_f[i] + 1e-9 * scale for i in range(nd))
     if nd == 2:
         inside = inside and float(np.max(np.abs(host.nodes[2]))) <= 1e-9 * scale
-    count_ok = entry != "cart_grid" or host.num_cells == int(np.prod(nx))
+    # (the cell count is an input for cart_grid (nx) and where node lines are given on every axis)
+    count_ok = not (entry == "cart_grid" or all(given)) or host.num_cells == int(np.prod(nx))
     if abs(float(host.cell_volumes.sum()) - dom) > 1e-12 * dom or not inside or not count_ok:
         bad("host: volume equals the domain volume",
             f"sum(cell_volumes)={host.cell_volumes.sum()!r} domain volume={dom!r} cells={host.num_cells}; host extent "
@@ -503,9 +611,12 @@ def check_case(pp, np, nd, nx, phys, fracs, reverse=False, tol_rel=1e-12, entry=
         tagged = set(np.where(g.tags["fracture_faces"])[0].tolist())
         if tagged != coupled_faces[g]:
             bad("tags: fracture_faces marks exactly the coupled faces", f"{g.dim}d grid: tagged {len(tagged)} coupled {len(coupled_faces[g])} difference {sorted(tagged ^ coupled_faces[g])[:6]}")
-    exp_host = 2 * sum(len(s) for s in model["frac_cells"])
+    # two per fracture cell in the interior of the domain, one per fracture cell lying in the domain boundary (one side only)
+    reg_host = tuple((0, n) for n in nx)
+    exp_host = sum(2 if strictly_inside(c2, reg_host) else 1 for s in model["frac_cells"] for c2 in s)
     if len(coupled_faces[host]) != exp_host:
-        bad("coupling: the host has two coupled faces per fracture cell", f"{len(coupled_faces[host])} coupled host faces expected {exp_host}")
+        bad("coupling: the host has two coupled faces per fracture cell",
+            f"{len(coupled_faces[host])} coupled host faces expected {exp_host} (two per fracture cell, one per fracture cell in the domain boundary)")
     info = {"one_sided": n_one_sided, "n_low": len(model["low_cells"]), "n_pts": len(model["points"]) if nd == 3 else len(model["low_cells"]),
             "interfaces": len(seen_pairs)}
     return "ok", fails, info
@@ -529,12 +640,21 @@ def classify(nd, fracs):
     return f"{nd}-d, {n} fracture{'s' if n > 1 else ''}, {kind}"
 
 
-def signature_of(entry, nd, nx, phys, fracs, origin, cell_size):
-    """Failing-input class used as violation signature.  cart_grid: the fracture configuration.  create_mdg: grid type and
-    the class of (domain, cell size), independent of the fractures."""
+def signature_of(entry, nd, nx, phys, fracs, origin, cell_size, pts=None):
+    """Failing-input class used as violation signature.  cart_grid / tensor_grid: the fracture configuration (with a marker
+    when a fracture lies in the domain boundary).  create_mdg: grid type and the class of (domain, cell size / node lines),
+    independent of the fractures."""
+    bnd = ", fracture in the domain boundary" if any(in_boundary(nd, nx, f) for f in fracs) else ""
     if entry == "cart_grid":
-        return classify(nd, fracs)
+        return classify(nd, fracs) + bnd
+    if entry == "tensor_grid":
+        return "tensor_grid (given node lines), " + classify(nd, fracs) + bnd
     gt = entry.split(":")[1]
+    if pts is not None and any(p is not None for p in pts):
+        axes = "/".join("xyz"[i] + "_pts" for i in range(nd) if pts[i] is not None)
+        return f"create_mdg {gt}, {nd}-d, node lines {axes} given" + (" with cell_size for the other axes" if cell_size is not None else "") + bnd
+    if bnd:
+        return f"create_mdg {gt}, {nd}-d" + bnd
     if origin is not None and any(frac_of(o) != 0 for o in origin):
         return f"create_mdg {gt}, domain lower corner not at the origin"
     sizes = list(cell_size) if isinstance(cell_size, (tuple, list)) else [cell_size] * nd
@@ -606,10 +726,124 @@ def mdg_families(tier, rng):
 
 
 def families(tier, rng):
-    """Yields (nd, nx, phys, fracs, reverse, tol_rel, entry, origin, cell_size)."""
+    """Yields (nd, nx, phys, fracs, reverse, tol_rel, entry, origin, cell_size, pts)."""
     for case in cart_families(tier, rng):
-        yield case + ("cart_grid", None, None)
-    yield from mdg_families(tier, rng)
+        yield case + ("cart_grid", None, None, None)
+    for case in mdg_families(tier, rng):
+        yield case + (None,)
+    # the added families come last so that the seeded samples of the families above are unchanged
+    yield from boundary_families(tier, rng)
+    yield from node_line_families(tier, rng)
+
+
+def _sets_upto2(F, must=None):
+    """All sets of one or two fractures from F (containing at least one fracture of ``must`` when given)."""
+    sets = [(f,) for f in F] + list(itertools.combinations(F, 2))
+    if must is not None:
+        m = set(must)
+        sets = [s for s in sets if any(f in m for f in s)]
+    return sets
+
+
+def boundary_families(tier, rng):
+    """Fractures lying in the domain boundary (alone, with interior fractures ending on / crossing towards them, with other
+    boundary fractures, meeting in a domain corner): such a fracture has the host on one side only, so each of its cells is
+    coupled to exactly one host face (a face with one neighbour cell), which must carry the fracture_faces tag; an interior
+    fracture ending on it is coupled to the intersection point through its end face, which lies in the domain boundary.
+    Yields (nd, nx, phys, fracs, reverse, tol_rel, entry, origin, cell_size, pts)."""
+    quick = tier == "quick"
+    # ---- 2-D, 3x3 unit grid, cart_grid: every single boundary fracture; pairs and triples with at least one boundary fracture
+    nx = (3, 3)
+    B, F = boundary_fracs_2d(nx), all_fracs_2d(nx)
+    for f in B:
+        yield 2, nx, (3, 3), (f,), False, 1e-12, "cart_grid", None, None, None
+    fixed = [
+        (("v", 0, 0, 3), ("h", 2, 0, 2)),                      # T: interior fracture ending on the boundary fracture
+        (("v", 0, 1, 3), ("h", 1, 0, 2)),                      # L on the boundary
+        (("v", 0, 0, 3), ("h", 0, 0, 3)),                      # two boundary fractures meeting in the domain corner
+        (("h", 3, 0, 3), ("h", 1, 1, 3), ("v", 2, 0, 3)),      # boundary fracture + interior X, one fracture ending on the boundary one
+        (("v", 3, 0, 2), ("v", 3, 2, 3)),                      # end to end in the boundary
+    ]
+    pairs = [s for s in _sets_upto2(B + F, must=B) if len(s) == 2]
+    triples = [(b,) + s for b in B for s in itertools.combinations(F, 2)]
+    sets = fixed + rng.sample(pairs, 110 if quick else len(pairs)) + rng.sample(triples, 40 if quick else 1500)
+    for fs in sets:
+        yield 2, nx, (3, 3), fs, False, 1e-12, "cart_grid", None, None, None
+    # ---- 2-D, other resolutions / physical sizes (dyadic and decimal spacing), vertex order reversed
+    for nx2, phys in (((4, 3), (2.0, 0.75)), ((3, 2), (0.9, 0.7)), ((2, 5), (1.0, 0.1))):
+        B2, F2 = boundary_fracs_2d(nx2), all_fracs_2d(nx2)
+        sets2 = _sets_upto2(B2 + F2, must=B2)
+        for fs in rng.sample(sets2, min(len(sets2), 25 if quick else 400)):
+            yield 2, nx2, phys, fs, True, 1e-12, "cart_grid", None, None, None
+    # Not part of the family (behaviour of the unchanged library, see the module docstring): pp.create_mdg removes a fracture
+    # lying in the domain boundary (impose_external_boundary, with a warning); in 3-D cart_grid / tensor_grid raise for a
+    # rectangle lying in a boundary plane.
+
+
+def node_line_families(tier, rng):
+    """Tensor grids with user-supplied node lines: ``pp.meshing.tensor_grid(fracs, x, y(, z))`` and ``pp.create_mdg(
+    "tensor_grid", {"x_pts": .., "y_pts": .. (, "z_pts": ..)} | {"cell_size": h, "<axis>_pts": ..}, network)``.  The lines are
+    non-uniform and differ between the axes (in number, in extent, or - same number and extent - in grading only); the
+    fractures lie on the given lines (interior lines; in 2-D through pp.meshing.tensor_grid also the domain boundary).
+    Yields (nd, nx, phys, fracs, reverse, tol_rel, entry, origin, cell_size, pts)."""
+    quick = tier == "quick"
+
+    def geom(pts):
+        nx = tuple(len(p) - 1 for p in pts)
+        org = tuple(p[0] for p in pts)
+        phys = tuple(float(frac_of(p[-1]) - frac_of(p[0])) for p in pts)
+        return nx, org, phys
+
+    cfg2 = [
+        ((0, 0.3, 0.7, 1.5, 2.0), (0, 0.5, 0.6, 1.0)),                    # 2 x 1 domain, 4 x 3 cells
+        ((0, 0.25, 0.5, 0.75, 1.0), (0, 0.1, 0.3, 0.6, 1.0)),             # same extent and number of lines, different grading
+        ((-1.0, -0.4, 0.1, 1.0), (2.0, 2.5, 3.5)),                        # lower corner not at the origin
+        ((0, 0.5, 1.0), (0, 1.0, 1.5, 2.0, 3.0)),                         # more lines in y than in x
+    ]
+    for pts in (cfg2 if not quick else cfg2[:3]):
+        nx, org, phys = geom(pts)
+        F, B = all_fracs_2d(nx), boundary_fracs_2d(nx)
+        inner, withb = _sets_upto2(F), _sets_upto2(B + F, must=B)
+        for entry in ("tensor_grid", "create_mdg:tensor_grid"):
+            n1, n2 = ((9, 5) if quick else (150, 120))
+            sets = [()] + rng.sample(inner, min(len(inner), n1))
+            if entry == "tensor_grid":
+                # fractures lying in the domain boundary: direct entry point only (create_mdg removes them, see boundary_families)
+                sets += rng.sample(withb, min(len(withb), n2))
+            for i, fs in enumerate(sets):
+                yield 2, nx, phys, fs, bool(i % 2), 1e-12, entry, org, None, pts
+    # cell_size for one axis, node lines for the other
+    mixed2 = [
+        ((0, 0), (1.0, 3.0), 0.25, (None, (0, 1.0, 1.5, 2.0, 3.0))),       # x: 4 uniform cells, y: given lines
+        ((0, 0), (2.0, 1.0), 0.3, ((0, 0.3, 0.7, 1.5, 2.0), None)),        # x: given lines, y: 3 uniform cells (size not dividing)
+        ((0.5, -1.0), (1.0, 1.0), 0.5, (None, (-1.0, -0.9, -0.5, 0))),     # lower corner not at the origin
+    ]
+    for org, phys, cs, pts in mixed2:
+        nx = tuple(len(pts[i]) - 1 if pts[i] is not None else cells_for(phys[i], cs) for i in range(2))
+        inner = _sets_upto2(all_fracs_2d(nx))
+        for fs in [()] + rng.sample(inner, min(len(inner), 6 if quick else 150)):
+            yield 2, nx, phys, fs, False, 1e-12, "create_mdg:tensor_grid", org, cs, pts
+    # ---- 3-D
+    cfg3 = [
+        ((0, 0.2, 0.5, 1.0), (0, 0.5, 1.0), (0, 0.25, 1.0)),
+        ((0, 0.5, 1.0), (0, 0.1, 0.4, 1.0), (0, 0.6, 1.0)),
+        ((1.0, 1.5, 3.0), (-0.5, 0, 0.25), (0, 0.25, 0.5, 2.0)),           # dyadic lines, lower corner not at the origin
+    ]
+    for j, pts in enumerate(cfg3 if not quick else cfg3[:2]):
+        nx, org, phys = geom(pts)
+        inner = _sets_upto2(all_fracs_3d(nx))
+        # 1e-9: structured._create_embedded_2d_grid centres the fracture nodes at their mean (not a binary fraction for
+        # non-uniform lines, also dyadic ones) and rounds to 1e-10
+        tolr = 1e-9
+        for entry in ("tensor_grid", "create_mdg:tensor_grid"):
+            for i, fs in enumerate(rng.sample(inner, 6 if quick else 150)):
+                yield 3, nx, phys, fs, bool(i % 2), tolr, entry, org, None, pts
+    # cell_size for x and y, node lines for z
+    org, phys, cs, pts = (0, 0, 0), (1.0, 1.0, 1.0), 0.5, (None, None, (0, 0.25, 0.5, 1.0))
+    nx = (2, 2, 3)
+    inner = _sets_upto2(all_fracs_3d(nx))
+    for fs in rng.sample(inner, 4 if quick else 100):
+        yield 3, nx, phys, fs, False, 1e-9, "create_mdg:tensor_grid", org, cs, pts
 
 
 def cart_families(tier, rng):
@@ -700,10 +934,13 @@ def run(rep):
                        "pp.create_mdg (grid_type 'cartesian', 'tensor_grid')", "porepy.grids.mdg_generation._preprocess_cartesian_args",
                        "porepy.grids.mdg_generation._preprocess_tensor_grid_args", "pp.meshing.tensor_grid",
                        "porepy.fracs.structured._tensor_grid_2d", "porepy.fracs.structured._tensor_grid_3d")
-    rep.assume("requires: fracture vertices on grid nodes, fractures on interior grid lines/planes, no two fractures share a cell, no three "
-               "fractures share a line segment (3-D)",
+    rep.assume("requires: fracture vertices on grid nodes, fractures on interior grid lines/planes (2-D cart_grid / tensor_grid: also on "
+               "the boundary lines of the domain), no two fractures share a cell, no three fractures share a line segment (3-D)",
                "create_mdg: the structured grid has round(L / h) cells per direction (L / h not a tie); fractures lie on the lines "
-               "lower corner + k * L / n of the given domain",
+               "lower corner + k * L / n of the given domain; given node lines (x_pts / y_pts / z_pts) are strictly increasing and start "
+               "and end on the domain boundary, and the fractures lie on them",
+               "fractures lying in the domain boundary: not through pp.create_mdg (removes them with a warning) and not in 3-D (cart_grid / "
+               "tensor_grid raise), see the module docstring",
                "simplex (gmsh) meshing is not applicable to this checker and not claimed",
                "3-D, non-dyadic cell size: tolerance 1e-9 because structured._create_embedded_2d_grid rounds local coordinates to 1e-10")
     rep.trust("exact integer box model of the fracture network (sidecar oracle)")
@@ -716,25 +953,35 @@ def run(rep):
              "cells along one axis): a rectangle on every interior plane (sampled planes for 12 cells in quick) and one X crossing per grid; "
              "pp.create_mdg 'cartesian' and 'tensor_grid' on 7 2-D and 6 3-D (domain, target cell size) configurations (dividing / not "
              "dividing / per-axis / decimal sizes, lower corner at and not at the origin) with fixed and sampled sets of <= 2 fractures; "
+             "fractures lying in the domain boundary, 2-D cart_grid: 3x3 grid every single boundary fracture, fixed T / L / corner / "
+             "end-to-end sets, pairs and triples with at least one boundary fracture (sampled in quick, all pairs in thorough), three other "
+             "resolutions / sizes; given node lines: pp.meshing.tensor_grid and pp.create_mdg('tensor_grid', x_pts / y_pts / z_pts) on 4 2-D "
+             "(3 in quick) and 3 3-D (2 in quick) sets of non-uniform lines, pp.create_mdg('tensor_grid', cell_size + one <axis>_pts) on 3 "
+             "2-D and one 3-D configuration, sampled sets of <= 2 fractures on the lines (2-D tensor_grid: also in the domain boundary); "
              "a case is non-trivial when it has at least one fracture; distinct by (entry point, nd, nx, side lengths, lower corner, "
-             "cell size, fracture set)",
+             "cell size, node lines, fracture set)",
         bound="<= 3 fractures; grids up to 6x3 (2-D) and 12x2x2 / 3x3x3 (3-D)",
         exhaustive=False,
     ) as sw:
         classes, entries = {}, {}
-        for nd, nx, phys, fracs, reverse, tolr, entry, origin, cell_size in families(rep.tier, rep.rng):
-            status, fails, info = check_case(pp, np, nd, nx, phys, fracs, reverse, tolr, entry, origin, cell_size)
+        for nd, nx, phys, fracs, reverse, tolr, entry, origin, cell_size, pts in families(rep.tier, rep.rng):
+            status, fails, info = check_case(pp, np, nd, nx, phys, fracs, reverse, tolr, entry, origin, cell_size, pts)
             if status == "skip":
                 sw.skip()
                 continue
             inputs = {"nd": nd, "nx": list(nx), "physdims": list(phys), "fracs": [list(f) for f in fracs], "reverse": reverse, "tol_rel": tolr,
                       "entry": entry, "origin": list(origin) if origin is not None else None,
-                      "cell_size": list(cell_size) if isinstance(cell_size, tuple) else cell_size}
-            sw.case(key=(entry, nd, nx, phys, origin, cell_size, fracs), nontrivial=len(fracs) > 0, sample=inputs)
+                      "cell_size": list(cell_size) if isinstance(cell_size, tuple) else cell_size,
+                      "pts": [list(p) if p is not None else None for p in pts] if pts is not None else None}
+            sw.case(key=(entry, nd, nx, phys, origin, cell_size, pts, fracs), nontrivial=len(fracs) > 0, sample=inputs)
             cls = classify(nd, fracs)
+            if any(in_boundary(nd, nx, f) for f in fracs):
+                cls += ", fracture in the domain boundary"
+            if pts is not None:
+                cls += ", given node lines"
             classes[cls] = classes.get(cls, 0) + 1
             entries[entry] = entries.get(entry, 0) + 1
-            sig = signature_of(entry, nd, nx, phys, fracs, origin, cell_size)
+            sig = signature_of(entry, nd, nx, phys, fracs, origin, cell_size, pts)
             for ob, detail in fails:
                 rep.violation(ob, sig, inputs=inputs, detail=detail, confirmed=True)
         rep.extra["cases_by_configuration"] = classes
@@ -757,8 +1004,9 @@ def replay(data):
 
     origin = tup(inp["origin"]) if inp.get("origin") is not None else None
     cell_size = tup(inp["cell_size"]) if inp.get("cell_size") is not None else None
+    pts = tup(inp["pts"]) if inp.get("pts") is not None else None
     status, fails, _ = check_case(pp, np, inp["nd"], tuple(inp["nx"]), tuple(inp["physdims"]), tup(inp["fracs"]), inp.get("reverse", False),
-                                  inp.get("tol_rel", 1e-12), inp.get("entry", "cart_grid"), origin, cell_size)
+                                  inp.get("tol_rel", 1e-12), inp.get("entry", "cart_grid"), origin, cell_size, pts)
     for f in fails:
         print("replay:", f)
     return bool(fails)
